@@ -111,6 +111,20 @@ func init() {
 					}
 				}
 			}
+			if tier != "selftest" {
+				// the same ClientConfig value used for two clients in a row
+				for _, first := range []string{"1", "2", "0", "L1", "3"} {
+					for _, pair := range [][2]string{{"1,2", "2"}, {"1,2", "1,2"}, {"1,2", "0"}, {"L1,2", "2"}, {"2,3", "1,3"}, {"1,2", "0,1"}} {
+						for _, m := range []string{"4", "0"} {
+							out = append(out, sp("C02", fmt.Sprintf("reuse/first%s/h%s/p%s/m%s", first, pair[0], pair[1], m), seed, P("host", pair[0], "plugin", pair[1], "mask", m, "env", "normal", "first", first)))
+							if !strings.HasPrefix(pair[0], "L") {
+								hv := strings.Split(pair[0], ",")
+								out = append(out, sp("C02", fmt.Sprintf("reuse/first%s/h%s/p%s/m%s/pv", first, pair[0], pair[1], m), seed, P("host", pair[0], "plugin", pair[1], "mask", m, "env", "normal", "first", first, "hostpv", hv[len(hv)-1])))
+							}
+						}
+					}
+				}
+			}
 			n := 500
 			if tier == "thorough" {
 				n = 100000
@@ -125,6 +139,10 @@ func init() {
 				env := []string{"normal", "normal", "delete", "corrupt-mid", "corrupt-all", "empty", "dup"}[u("env", 7)]
 				s := &k.Spec{Seed: sd, Params: P("host", sideString(hs, u("hl", 3) == 0), "plugin", sideString(ps, u("pl", 3) == 0), "mask", strconv.Itoa(u("mask", 32)), "env", env,
 					"nogrpcserver", b2s(u("ngs", 6) == 0))}
+				if u("first", 4) == 0 {
+					fs := all[u("fs", len(all))]
+					s.Params["first"] = sideString(fs, u("fl", 3) == 0)
+				}
 				if env == "normal" && u("inh", 3) == 0 {
 					s.Params["inherit"] = c02Inherited[u("inhv", len(c02Inherited))]
 				}
@@ -214,9 +232,16 @@ func runC02(r *h.Run) {
 		cfg.HandshakeConfig.ProtocolVersion = uint(lv)
 		cfg.Plugins = ls
 	}
+	if pv := r.Spec.P("hostpv", ""); pv != "" && ls == nil {
+		// HandshakeConfig.ProtocolVersion names one of the versioned sets, no legacy Plugins
+		n, _ := strconv.Atoi(pv)
+		cfg.HandshakeConfig.ProtocolVersion = uint(n)
+		ctx += " host-protocolversion=" + pv
+	}
 	var listSent string
+	prog, procName := "/bin/vplugin", "plugin"
 	cfg.RunnerFunc = func(l hclog.Logger, cmd *simexec.Cmd, tmpDir string) (runner.Runner, error) {
-		cmd.Path, cmd.Args, cmd.SimName = "/bin/vplugin", []string{"/bin/vplugin"}, "plugin"
+		cmd.Path, cmd.Args, cmd.SimName = prog, []string{prog}, procName
 		// the version list as the client built it, then what an old or broken host would hand over
 		var env []string
 		for _, kv := range cmd.Env {
@@ -246,6 +271,28 @@ func runC02(r *h.Run) {
 		}
 		cmd.Env = env
 		return h.NewSimRunner(r, cmd, tmpDir, false)
+	}
+	if first := r.Spec.P("first", ""); first != "" {
+		// the SAME ClientConfig value served an earlier client first, against a
+		// plugin with another version set: nothing of that may carry over
+		fs := parseSide(first)
+		r.W.RegisterProgram("/bin/vplugin0", []byte("#!vplugin0"), func() {
+			lv, ls, vers := buildSets(fs, mask, "first-", nil)
+			sc := &plugin.ServeConfig{HandshakeConfig: plugins.Handshake, VersionedPlugins: vers, GRPCServer: plugin.DefaultGRPCServer}
+			sc.HandshakeConfig.ProtocolVersion = 0
+			if ls != nil {
+				sc.HandshakeConfig.ProtocolVersion = uint(lv)
+				sc.Plugins = ls
+			}
+			plugin.Serve(sc)
+		})
+		prog, procName = "/bin/vplugin0", "plugin0"
+		a := plugin.NewClient(cfg)
+		r.DoNoHang("First.Start", 80*time.Second, ctx, func() (any, error) { return a.Start() })
+		r.DoNoHang("First.Client", 80*time.Second, ctx, func() (any, error) { return a.Client() })
+		r.DoNoHang("First.Kill", 80*time.Second, ctx, func() (any, error) { a.Kill(); return nil, nil })
+		prog, procName = "/bin/vplugin", "plugin"
+		ctx += " config-used-before-with-plugin=" + first
 	}
 	cl := plugin.NewClient(cfg)
 
